@@ -27,6 +27,7 @@ import io
 import json
 import os
 import random
+import re
 
 from .. import jsonlex as jl
 from .. import tlc, tracecheck
@@ -213,6 +214,31 @@ def _classify_exc(ex):
     return "other:" + type(ex).__name__
 
 
+_NODESC = {"ents": [], "trunc": False, "summary": []}
+_DESC_ENTRY = re.compile(r"HTTP status: (\d+)(, message: )?")
+
+
+def _description(text):
+    """'HTTP status: 404 | HTTP status: 404, message: x | TRUNCATED 2x404, 1x429' -> what does not depend on the reasons' text.
+    (no generated reason contains ' | ')"""
+    if not text:
+        return dict(_NODESC)
+    parts = text.split(" | ")
+    summary = []
+    trunc = parts[-1].startswith("TRUNCATED ")
+    if trunc:
+        for x in parts.pop()[len("TRUNCATED ") :].split(", "):
+            n, st = x.split("x")
+            summary.append({"n": int(n), "st": int(st)})
+    ents = []
+    for e in parts:
+        m = _DESC_ENTRY.match(e)
+        if not m:
+            raise tlc.MachineryError("cannot read the error description %r" % text[:200])
+        ents.append({"st": int(m.group(1)), "msg": bool(m.group(2))})
+    return {"ents": ents, "trunc": trunc, "summary": summary}
+
+
 def _stats(meta, details):
     sc = meta.get("success-count")
     return {
@@ -221,6 +247,7 @@ def _stats(meta, details):
         "ec": int(meta.get("error-count", -2)),
         "took": meta["_took"],
         "details": details,
+        "desc": _description(meta.get("error-description")),
     }
 
 
@@ -246,7 +273,7 @@ def _bulk_call(data, table, size, unit, detailed):
     try:
         meta = _await(b(FakeEs([data]), params))
     except Exception as ex:  # pylint: disable=broad-except
-        return {"success": False, "sc": -2, "ec": -2, "took": {"t": "error"}, "details": [], "exc": type(ex).__name__}
+        return {"success": False, "sc": -2, "ec": -2, "took": {"t": "error"}, "details": [], "desc": dict(_NODESC), "exc": type(ex).__name__}
     meta = dict(meta)
     meta["_took"] = table.value(meta.get("took"))
     det = []
@@ -443,14 +470,31 @@ def signature(item, clauses):
         tree = item["tree"]
         errors = _lookup(tree, ["errors"])
         items = _lookup(tree, ["items"])
-        shard_failure = False
+        shard_failure = status_only = False
+        reasons = {}  # status -> kinds of reason ("none" / "text") among the items failed by the predicate of both paths
         for it in items["el"] if items.get("t") == "a" else []:
             if it["t"] == "o" and it["kv"]:
-                f = _lookup(it["kv"][0]["v"], ["_shards", "failed"])
-                if f.get("t") == "s" and f["n"] > 0:
+                d = it["kv"][0]["v"]
+                f = _lookup(d, ["_shards", "failed"])
+                st = _lookup(d, ["status"])
+                err = _lookup(d, ["error"])
+                sf = f.get("t") == "s" and f["n"] > 0
+                bad_status = st.get("t") == "s" and st["n"] > 299
+                if sf:
                     shard_failure = True
-        if shard_failure and errors.get("v") == "b:0":
-            causes.add("shard_failure_without_errors_flag")
+                if bad_status and err.get("t") == "absent" and not sf:
+                    status_only = True
+                if sf or bad_status:
+                    reason = _lookup(err, ["reason"]) if err.get("t") == "o" else err
+                    text = reason.get("t") == "s" and reason["ty"] != "null"
+                    reasons.setdefault(st.get("n"), set()).add("text" if text else "none")
+        if errors.get("v") == "b:0":
+            if shard_failure:
+                causes.add("shard_failure_without_errors_flag")
+            if status_only:
+                causes.add("error_status_without_errors_flag")
+        if any(len(v) == 2 for v in reasons.values()):
+            causes.add("status_with_and_without_reason")
     elif kind in ("sa", "paged"):
         part = "cursor"
         for t in [item["tree"]] if kind == "sa" else item["pages"]:
@@ -540,6 +584,16 @@ def sample_inputs(universe, caps, seed):
 MEMBER_NAMES = ["geo.src", "geo.dest", "source.ip", "destination.ip", "host.name", "user.name", "a.b.c", "b.c", "c", "date", "@timestamp", "event.dataset"]
 
 
+def _rand_total(rnd, value):
+    """hits.total in the shape of ES < 7 / rest_total_hits_as_int (a number) or of ES 7+ ({value, relation}, either key order)"""
+    if rnd.random() < 0.4:
+        return jl.sc_num(value)
+    pairs = [("value", jl.sc_num(value)), ("relation", jl.sc_known(rnd.choice(["eq", "gte"])))]
+    if rnd.random() < 0.25:
+        pairs.reverse()
+    return jl.obj(*pairs)
+
+
 def _rand_scalar(rnd, ids):
     x = rnd.random()
     if x < 0.35:
@@ -613,16 +667,22 @@ def random_inputs(seed, n):
                 op = rnd.choice(["index", "create", "update", "delete"])
                 x = rnd.random()
                 fields = [("_index", jl.sc_str(1)), ("_id", jl.sc_str("i%d" % (j % 4)))]
-                if x < 0.6:
-                    fields += [("_version", jl.sc_num(1)), ("result", jl.sc_known("created")), ("_shards", jl.obj(("total", jl.sc_num(2)), ("successful", jl.sc_num(2)), ("failed", jl.sc_num(0)))), ("_seq_no", jl.sc_big(1)), ("status", jl.sc_num(rnd.choice([200, 201])))]
-                elif x < 0.72:
-                    fields += [("_shards", jl.obj(("total", jl.sc_num(2)), ("successful", jl.sc_num(1)), ("failed", jl.sc_num(1)))), ("status", jl.sc_num(201))]
-                elif x < 0.8:
-                    fields += [("result", jl.sc_known("noop")), ("status", jl.sc_num(200))]
+                shards = rnd.choice([None, 0, 0, 1])  # _shards absent / failed 0 / failed > 0
+                if x < 0.55:
+                    st = rnd.choice([200, 201])
+                    fields += [("_version", jl.sc_num(1)), ("result", jl.sc_known(rnd.choice(["created", "updated", "deleted", "noop"]))), ("_seq_no", jl.sc_big(1)), ("status", jl.sc_num(st))]
+                    if x < 0.45:
+                        shards = 0
+                elif x < 0.67:
+                    # a delete of a missing document: 404, result not_found, NO error (and `errors` stays false)
+                    op = "delete"
+                    fields += [("result", jl.sc_known("not_found")), ("status", jl.sc_num(404))]
                 else:
                     any_error = True
-                    st = rnd.choice([400, 409, 429, 503])
+                    st = rnd.choice([400, 404, 409, 429, 500, 503])
                     fields += [("status", jl.sc_num(st)), ("error", jl.obj(("type", jl.sc_str("t%d" % st)), ("reason", jl.sc_str("r%d" % st)), ("index", jl.sc_str(1))))]
+                if shards is not None:
+                    fields.insert(rnd.randint(2, len(fields)), ("_shards", jl.obj(("total", jl.sc_num(2)), ("successful", jl.sc_num(2 - shards)), ("failed", jl.sc_num(shards)))))
                 if rnd.random() < 0.3:
                     rnd.shuffle(fields)
                 items.append(jl.obj((op, jl.obj(*fields))))
@@ -641,7 +701,7 @@ def random_inputs(seed, n):
             comp = jl.obj(("after_key", after), ("buckets", jl.arr(*[jl.obj(("key", jl.obj(*[(nm, jl.sc_str(1)) for nm in names])), ("doc_count", jl.sc_num(2))) for _ in range(rnd.randint(0, 2))])))
             aggs = jl.obj((path[0], comp)) if len(path) == 1 else jl.obj((path[0], jl.obj(("doc_count", jl.sc_num(9)), (path[1], comp))))
             pit = rnd.random() < 0.3
-            top = [("took", jl.sc_num(3)), ("timed_out", jl.sc_bool(False)), ("hits", jl.obj(("total", jl.obj(("value", jl.sc_num(12)), ("relation", jl.sc_known("eq")))), ("hits", jl.arr()))), ("aggregations", aggs)]
+            top = [("took", jl.sc_num(3)), ("timed_out", jl.sc_bool(False)), ("hits", jl.obj(("total", _rand_total(rnd, rnd.choice([0, 0, 12]))), ("hits", jl.arr()))), ("aggregations", aggs)]
             if pit and rnd.random() < 0.9:
                 top.insert(0, ("pit_id", jl.sc_str("pit")))
             if rnd.random() < 0.3:
@@ -659,7 +719,7 @@ def random_inputs(seed, n):
                 if rnd.random() < 0.1:
                     rnd.shuffle(fields)
                 hits.append(jl.obj(*fields))
-            total = rnd.choice([jl.sc_num(nh + 3), jl.obj(("value", jl.sc_num(nh + 3)), ("relation", jl.sc_known(rnd.choice(["eq", "gte"]))))])
+            total = _rand_total(rnd, nh + 3 if nh else rnd.choice([0, 0, 3]))
             pit = rnd.random() < 0.3
             top = [("took", jl.sc_num(5)), ("timed_out", jl.sc_bool(rnd.random() < 0.2)), ("_shards", jl.obj(("total", jl.sc_num(1)), ("failed", jl.sc_num(0)))), ("hits", jl.obj(("total", total), ("max_score", NULLV), ("hits", jl.arr(*hits))))]
             if pit and rnd.random() < 0.9:
@@ -669,7 +729,8 @@ def random_inputs(seed, n):
             res.append({"kind": "sa", "tree": jl.obj(*top), "lex": {"brackets": [], "spc": rnd.random() < 0.1}, "pit": pit, "ht": ABSENT if rnd.random() < 0.6 else jl.sc_num(nh + 3)})
         else:  # realistic page sequences: total T, page size s
             size = rnd.choice([1, 2, 3])
-            total = rnd.choice([0, 1, 2, 3, 4, 6])
+            total = rnd.choice([0, 0, 1, 2, 3, 4, 6])
+            total_tree = _rand_total(rnd, total)
             scroll = k == 8
             odd = 0 if scroll or rnd.random() < 0.8 else rnd.choice([1, 2])  # 1: `]` in the sort strings, 2: pretty-printed
             pages = []
@@ -678,7 +739,7 @@ def random_inputs(seed, n):
                 nh = min(size, total - served)
                 hits = [jl.obj(("_id", jl.sc_str("i%d" % (served + j))), ("_source", jl.obj(("f", jl.sc_str(1)))), ("sort", jl.arr(jl.sc_num(100 + served + j), jl.sc_str(("b%d" if odd == 1 else "i%d") % (served + j))))) for j in range(nh)]
                 served += nh
-                top = [("took", jl.sc_num(rnd.choice([1, 2, 5]))), ("timed_out", jl.sc_bool(rnd.random() < 0.15)), ("hits", jl.obj(("total", jl.obj(("value", jl.sc_num(total)), ("relation", jl.sc_known("eq")))), ("hits", jl.arr(*hits))))]
+                top = [("took", jl.sc_num(rnd.choice([1, 2, 5]))), ("timed_out", jl.sc_bool(rnd.random() < 0.15)), ("hits", jl.obj(("total", total_tree), ("hits", jl.arr(*hits))))]
                 if scroll:
                     top.insert(0, ("_scroll_id", jl.sc_str("sid")))
                 pages.append(jl.obj(*top))
@@ -759,6 +820,7 @@ def validate(items, out, store, chunk=8000):
 
 PINNED = [
     ("ShardFailureFix", "simple_stats trusts the top-level `errors` flag"),
+    ("DescriptionSortFix", "error_description sorts (status, None) together with (status, text)"),
     ("CursorFix", "SearchAfterExtractor cuts the cursor out of the raw text with a regular expression"),
     ("NullMemberFix", "parse() drops null members of a requested flat object"),
 ]
@@ -802,9 +864,9 @@ def run(ctx, out):
     out.extra["model_selftest"] = selftest
     # ---- Leg S2C: the model's input universe on the real code
     caps = (
-        {"tree": 2200, "bulk": 1200, "sa": 2000, "ca": 200, "body": 100, "scroll": 450, "paged": 450}
+        {"tree": 1700, "bulk": 2000, "sa": 1900, "ca": 300, "body": 100, "scroll": 450, "paged": 450}
         if quick
-        else {"tree": 40000, "bulk": 20000, "sa": 14000, "scroll": 12000, "paged": 12000}
+        else {"tree": 30000, "bulk": 16000, "sa": 14000, "scroll": 12000, "paged": 12000}
     )
     per_kind, out.exhaustive, planned = sample_plan(universe, caps)
     out.note("leg S2C: %d of %d TLC inputs replayed on the implementation (%s)" % (planned, sum(per_kind.values()), ", ".join("%s=%d" % kv for kv in sorted(per_kind.items()))))
